@@ -5,6 +5,10 @@
 mod authjudge;
 mod awssig;
 mod common;
+mod driver;
+mod dgen;
+mod model;
+mod sdk;
 mod props;
 mod sigref;
 mod svc;
